@@ -1,9 +1,208 @@
-import SynthVerif.Model.Adsr
-import SynthVerif.Model.Lfo
-import SynthVerif.Model.Quantizer
-import SynthVerif.Model.Midi
-import SynthVerif.Model.Glide
-import SynthVerif.Model.Ribbon
+import SynthVerif.Props.C09
+import SynthVerif.Props.Interp
+/-!
+# C19 — Quantizer result record is self-consistent
+
+* `stairstep_is_note_over_12`: in every history of allow / forbid / convert calls, every reported conversion has
+  `stairstep = fl(note / 12)` — on the history-free path by construction, on the hysteresis path because the cache
+  always holds a conversion that was produced that way (`CacheOk`).
+* `reconstruct`: `fl(stairstep + fl(x − stairstep))` differs from `x` by at most
+  `2^-24·(|x − ss| + |x|)·(1 + 2^-24) + 3·2^-150` (two half-ulp roundings), where `x` is the input on the hysteresis
+  path and the clamped input on the history-free path.
+* `kept_fraction_range`: whenever the hysteresis window kept the previous note `p ≤ 131`, the fraction lies in
+  `[−0.1, 1.1]` semitones, up to `2^-17` V.
+* `chromatic_fraction_neg_witness` (K1, a recorded finding): a history-free chromatic conversion can report a
+  *negative* fraction (`convert(0.999996)` → note 12, fraction −3.99e-6), because the search grid uses a truncated
+  83333 µV semitone while the stairstep is `fl(n/12)`; the property's clause "fraction in [0, 1) semitone" is
+  therefore false of the code and is not proved — `note_bound` and `fresh_note_le_131` are the parts that hold.
+-/
 namespace C19
-theorem placeholder_to_be_replaced : True := trivial
+open F32 Quantizer
+
+/-- the cache is the initial record or holds `stairstep = fl(note/12)` with a note in 0..131 -/
+def CacheOk (q : Quantizer) : Prop :=
+  q.cached = Quantizer.new.cached ∨
+  (q.cached.stairstep = div (ofNat q.cached.note) notesPerOctave ∧ q.cached.note ≤ 131)
+
+theorem fresh_note_le_131 (allowed : Nat) (ha : ∃ n, n < 12 ∧ bit allowed n = true) (v : F32) :
+    (convertFresh allowed v).note ≤ 131 := by
+  obtain ⟨h1, h2, h3⟩ := consts
+  have hv := C07.microvolts_le v
+  have p := C08.local_to_global allowed _ _ ha hv (C08.search_is_pick allowed _ ha hv)
+  obtain ⟨k, n, hk, hn, _, he⟩ := C08.mem_globalCands.mp p.1
+  simp only [convertFresh]
+  rw [C08.findNearestUv_eq, he, h1, h2]
+  rw [h3] at hk
+  have e : (n * 83333 + k * 1000000) / 83333 = n + 12 * k := by omega
+  have e2 : (n + 12 * k) % 256 = n + 12 * k := by omega
+  calc (n * 83333 + k * 1000000) / 83333 % 256 = (n + 12 * k) % 256 := by rw [e]
+    _ = n + 12 * k := e2
+    _ ≤ 131 := by omega
+
+theorem fresh_stairstep (allowed : Nat) (v : F32) :
+    (convertFresh allowed v).stairstep = div (ofNat (convertFresh allowed v).note) notesPerOctave := by
+  simp only [convertFresh]
+
+/-- one conversion: the record is well formed and so is the new cache -/
+theorem convert_ok (q : Quantizer) (hq : CacheOk q) (ha : ∃ n, n < 12 ∧ bit q.allowed n = true) (v : F32) :
+    (q.convert v).2.stairstep = div (ofNat (q.convert v).2.note) notesPerOctave ∧ (q.convert v).2.note ≤ 131 ∧
+    CacheOk (q.convert v).1 := by
+  obtain ⟨ck, cf, cc, cal⟩ := C09.convert_cases q v
+  by_cases hk : C09.keeps q v = true
+  · -- kept: the cache cannot be the initial record
+    rcases hq with hinit | ⟨hs, hn⟩
+    · exfalso
+      have := C09.init_never_in_window v
+      unfold C09.keeps at hk
+      rw [hinit] at hk
+      simp [this] at hk
+    · obtain ⟨e1, e2⟩ := ck hk
+      refine ⟨by rw [e1]; exact hs, by rw [e2]; exact hn, Or.inr ?_⟩
+      rw [cc, e1]; exact ⟨hs, hn⟩
+  · have hk' : C09.keeps q v = false := by simpa using hk
+    have e := cf hk'
+    refine ⟨by rw [e]; exact fresh_stairstep _ v, by rw [e]; exact fresh_note_le_131 _ ha v, Or.inr ?_⟩
+    rw [cc, e]; exact ⟨fresh_stairstep _ v, fresh_note_le_131 _ ha v⟩
+
+/-- run a history, collecting every reported conversion; `none` = panic -/
+def run (q : Quantizer) : List C07.Op → Option (Quantizer × List Conversion)
+  | [] => some (q, [])
+  | .allow ns :: ops => run (q.allow ns) ops
+  | .forbid ns :: ops => match q.forbid ns with
+    | none => none
+    | some q' => run q' ops
+  | .convert v :: ops => match run (q.convert v).1 ops with
+    | none => none
+    | some (q', rs) => some (q', (q.convert v).2 :: rs)
+
+/-- **C19 (stairstep), all histories** -/
+theorem stairstep_is_note_over_12 (q : Quantizer) (hi : C07.QInv q) (hc : CacheOk q) (ops : List C07.Op)
+    (hw : ∀ o ∈ ops, o.wf) :
+    ∃ q' rs, run q ops = some (q', rs) ∧
+      ∀ c ∈ rs, c.stairstep = div (ofNat c.note) notesPerOctave ∧ c.note ≤ 131 := by
+  induction ops generalizing q with
+  | nil => exact ⟨q, [], rfl, by simp⟩
+  | cons o ops ih =>
+    have hw' : ∀ o ∈ ops, o.wf := fun x hx => hw x (by simp [hx])
+    have hwo := hw o (by simp)
+    cases o with
+    | allow ns =>
+      have hc' : CacheOk (q.allow ns) := hc
+      exact ih (q.allow ns) (C07.allow_inv q ns hwo hi) hc' hw'
+    | forbid ns =>
+      obtain ⟨q1, hq1, hi1, _⟩ := C07.forbid_inv q ns hwo hi
+      have hc1 : CacheOk q1 := by
+        unfold Quantizer.forbid at hq1
+        dsimp only at hq1
+        split at hq1
+        · split at hq1
+          · simp at hq1
+          · simp only [Option.some.injEq] at hq1; subst hq1; exact hc
+        · simp only [Option.some.injEq] at hq1; subst hq1; exact hc
+      obtain ⟨q', rs, hr, hall⟩ := ih q1 hi1 hc1 hw'
+      have e : run q (.forbid ns :: ops) = (match q.forbid ns with | none => none | some q' => run q' ops) := rfl
+      exact ⟨q', rs, by rw [e, hq1]; exact hr, hall⟩
+    | convert v =>
+      obtain ⟨h1, h2, h3⟩ := convert_ok q hc (C07.exists_allowed hi) v
+      have hi1 : C07.QInv (q.convert v).1 := by
+        unfold C07.QInv; rw [(C09.convert_cases q v).2.2.2]; exact hi
+      obtain ⟨q', rs, hr, hall⟩ := ih _ hi1 h3 hw'
+      have e : run q (.convert v :: ops) = (match run (q.convert v).1 ops with
+        | none => none | some (q', rs) => some (q', (q.convert v).2 :: rs)) := rfl
+      refine ⟨q', (q.convert v).2 :: rs, by rw [e, hr], ?_⟩
+      intro c hcm
+      rcases List.mem_cons.mp hcm with rfl | hcm'
+      · exact ⟨h1, h2⟩
+      · exact hall c hcm'
+
+/-- **reconstruction**: adding the fraction back to the stairstep reproduces `x` up to two roundings -/
+theorem reconstruct (x ss : F32) (hx : x.isFin = true) (hs : ss.isFin = true) (bx : |x.val| ≤ 2 ^ (100:ℤ))
+    (bs : |ss.val| ≤ 2 ^ (100:ℤ)) :
+    let f := sub x ss
+    (add ss f).isFin = true ∧
+    |(add ss f).val - x.val| ≤ 2 ^ (-24:ℤ) * (|x.val - ss.val| + |x.val|) * (1 + 2 ^ (-24:ℤ)) + 3 * 2 ^ (-150:ℤ) := by
+  have big : (2:ℚ) ^ (100:ℤ) + 2 ^ (100:ℤ) ≤ 2 ^ (127:ℤ) := by norm_num
+  have hd : |x.val - ss.val| ≤ 2 ^ (127:ℤ) := by
+    have := abs_sub x.val ss.val; linarith
+  obtain ⟨f1, f2⟩ := val_sub hx hs hd
+  have e1 := rnd_err_gen (x.val - ss.val)
+  have hfb : |(sub x ss).val| ≤ 2 ^ (102:ℤ) := by
+    rw [f2]; apply abs_rnd_le _ (rep_pow2 (by norm_num))
+    have := abs_sub x.val ss.val
+    have : |x.val - ss.val| ≤ 2 ^ (100:ℤ) + 2 ^ (100:ℤ) := by linarith
+    exact le_trans this (by norm_num)
+  have hsb : |ss.val + (sub x ss).val| ≤ 2 ^ (127:ℤ) := by
+    have := abs_add_le ss.val (sub x ss).val
+    have : |ss.val + (sub x ss).val| ≤ 2 ^ (100:ℤ) + 2 ^ (102:ℤ) := by linarith
+    exact le_trans this (by norm_num)
+  obtain ⟨a1, a2⟩ := val_add hs f1 hsb
+  have e2 := rnd_err_gen (ss.val + (sub x ss).val)
+  refine ⟨a1, ?_⟩
+  rw [a2]
+  rw [f2] at e2 ⊢
+  set d := x.val - ss.val with hd'
+  set ε : ℚ := 2 ^ (-24:ℤ) with hε
+  set δ : ℚ := 2 ^ (-150:ℤ) with hδ
+  have ε0 : 0 ≤ ε := by positivity
+  have δ0 : 0 ≤ δ := by positivity
+  have ε1 : ε ≤ 1 := by rw [hε]; norm_num
+  -- ss + rnd d = x + (rnd d − d)
+  have key : ss.val + rnd d = x.val + (rnd d - d) := by rw [hd']; ring
+  have h3 : |ss.val + rnd d| ≤ |x.val| + (ε * |d| + δ) := by
+    rw [key]; have := abs_add_le x.val (rnd d - d); linarith
+  have split : rnd (ss.val + rnd d) - x.val = (rnd (ss.val + rnd d) - (ss.val + rnd d)) + (rnd d - d) := by
+    rw [hd']; ring
+  rw [split]
+  have t := abs_add_le (rnd (ss.val + rnd d) - (ss.val + rnd d)) (rnd d - d)
+  have hd0 : 0 ≤ |d| := abs_nonneg _
+  have hx0 : 0 ≤ |x.val| := abs_nonneg _
+  have e2' : |rnd (ss.val + rnd d) - (ss.val + rnd d)| ≤ ε * (|x.val| + (ε * |d| + δ)) + δ := by
+    have := mul_le_mul_of_nonneg_left h3 ε0
+    linarith
+  have p0 : ε * δ ≤ δ := by nlinarith
+  have p1 : 0 ≤ ε * ε * |x.val| := by positivity
+  have target : ε * (|d| + |x.val|) * (1 + ε) + 3 * δ = ε * |d| + ε * |x.val| + ε * ε * |d| + ε * ε * |x.val| + 3 * δ := by ring
+  have e2exp : ε * (|x.val| + (ε * |d| + δ)) + δ = ε * |x.val| + ε * ε * |d| + ε * δ + δ := by ring
+  rw [target]; rw [e2exp] at e2'
+  linarith
+
+/-- **hysteresis path**: if the window of a cached note `p ≤ 131` admitted the (finite) input, the reported
+fraction is within [−0.1, 1.1] semitones up to 2^-17 V -/
+theorem kept_fraction_range (p : ℕ) (hp : p ≤ 131) (v : F32) (hv : v.isFin = true)
+    (hin : inWindow { note := p, stairstep := div (ofNat p) notesPerOctave, fraction := zero } v = true) :
+    let frac := sub v (div (ofNat p) notesPerOctave)
+    frac.isFin = true ∧ -(1 / 120) - 2 ^ (-17:ℤ) ≤ frac.val ∧ frac.val ≤ 1 / 12 + 1 / 120 + 2 ^ (-17:ℤ) := by
+  obtain ⟨l1, h1, lb, hb⟩ := C09.window_bounds p hp
+  obtain ⟨s1, s2⟩ := C09.stairstep_val p (by omega)
+  simp only [inWindow, Bool.and_eq_true] at hin
+  obtain ⟨hlo, hhi⟩ := hin
+  rw [lt_val l1 hv] at hlo
+  rw [lt_val hv h1] at hhi
+  simp only [decide_eq_true_eq] at hlo hhi
+  have lb' := abs_le.mp lb
+  have hb' := abs_le.mp hb
+  have hp' : (p:ℚ) ≤ 131 := by exact_mod_cast hp
+  have p0 : (0:ℚ) ≤ p := by positivity
+  have hq : |(p:ℚ) / 12| < 16 := by
+    rw [abs_of_nonneg (by positivity), div_lt_iff₀ (by norm_num)]; linarith
+  have e0 : |rnd ((p:ℚ) / 12) - (p:ℚ) / 12| ≤ 2 ^ (-21:ℤ) := by
+    have := rnd_err (x := (p:ℚ) / 12) (k := 4) (by norm_num) (by norm_num; exact hq)
+    norm_num at this ⊢; exact this
+  have e0' := abs_le.mp e0
+  norm_num at lb' hb' e0'
+  -- v − ss is small
+  have d1 : -(1 / 120) - 3 * (1 / 1048576) < v.val - rnd ((p:ℚ) / 12) := by linarith [lb'.1, lb'.2, e0'.1, e0'.2]
+  have d2 : v.val - rnd ((p:ℚ) / 12) < 1 / 12 + 1 / 120 + 3 * (1 / 1048576) := by linarith [hb'.1, hb'.2, e0'.1, e0'.2]
+  have dabs : |v.val - rnd ((p:ℚ) / 12)| < 1 := by rw [abs_lt]; constructor <;> linarith
+  obtain ⟨f1, f2⟩ := val_sub hv s1 (by rw [s2]; exact le_trans (le_of_lt dabs) (by norm_num))
+  rw [s2] at f2
+  have ef := abs_le.mp (rnd_err (x := v.val - rnd ((p:ℚ) / 12)) (k := 0) (by norm_num) (by simpa using dabs))
+  norm_num at ef
+  refine ⟨f1, ?_, ?_⟩ <;> rw [f2] <;> norm_num <;> linarith [ef.1, ef.2]
+
+/-- **K1 (recorded finding)**: a history-free chromatic conversion with a negative fraction -/
+theorem chromatic_fraction_neg_witness :
+    (Quantizer.new.convert (ofBits 0x3f7fffbd)).2.note = 12 ∧
+    lt (Quantizer.new.convert (ofBits 0x3f7fffbd)).2.fraction zero = true := by decide +kernel
+
 end C19
